@@ -73,12 +73,13 @@ def collect():
         out = os.path.join(MUT_DIR, d, "out")
         if not os.path.isdir(out):
             continue
-        for suffix in ("", "2"):
+        for si, suffix in enumerate(("", "2", "3")):
             p = os.path.join(out, "patch%s.diff" % suffix)
             dm = os.path.join(out, "demo%s.cpp" % suffix)
             mt = os.path.join(out, "meta%s.txt" % suffix)
             if os.path.exists(p) and os.path.exists(dm) and os.path.getsize(p) > 0:
-                items.append((d + (LETTERS[1] if suffix else LETTERS[0]), d, p, dm, mt))
+                if si < len(LETTERS):
+                    items.append((d + LETTERS[si], d, p, dm, mt))
     return items
 
 
@@ -162,12 +163,13 @@ def main():
         out = os.path.join("/tmp/mut", d, "out")
         if not os.path.isdir(out):
             continue
-        for suffix in ("", "2"):
+        for si, suffix in enumerate(("", "2", "3")):
             p = os.path.join(out, "patch%s.diff" % suffix)
             dm = os.path.join(out, "demo%s.cpp" % suffix)
             mt = os.path.join(out, "meta%s.txt" % suffix)
             if os.path.exists(p) and os.path.exists(dm) and os.path.getsize(p) > 0:
-                items.append((d + (LETTERS[1] if suffix else LETTERS[0]), d, p, dm, mt))
+                if si < len(LETTERS):
+                    items.append((d + LETTERS[si], d, p, dm, mt))
     for name, prop, patch, demo, meta in items:
         if only and name not in only and prop not in only:
             continue
